@@ -379,8 +379,9 @@ def walkRec (walk : Nat → Store → M Store) (root : Nat) : List (Nat × Nat) 
 def walkDoubles : Nat → Nat → Store → M Store
   | 0, _, _ => throw .fuel
   | fuel + 1, root, s =>
-    -- `root + 1`: u32 overflow (checked) / `BTreeMap::range` start > end (release): panic in both
-    if root + 1 ≥ W32 then throw .panic
+    -- `root + 1`: u32 overflow in the checked profile; the release build wraps to 0 and
+    -- `BTreeMap::range` then panics (start > end) unless the map is empty
+    if root + 1 ≥ W32 then throw .overflow
     else do
       let pqs := (s.doubles.filter (fun e => e.1.1 = root)).map (fun e => e.1)
       let qps := s.doublesRev.filter (fun e => e.1 = root)
